@@ -209,6 +209,8 @@ add(Job('safe_is_6531_local', 'harness/is_6531_local.c', enforce='is_6531_local'
         functions=['is_6531_local', 'utf8_decode_* (inlined)'], files=['src/is_6531_local.c', 'src/utf8_decode.c'], assumptions=[A1, A9],
         note='safety-only contract (see the other safe_* jobs)'))
 SAFE_JOBS.append('safe_is_6531_local')
+add(Job('errors_table', 'harness/errors_table.c', no_dfcc=True, unwind=52, safety_checks=False, extra_cbmc=['--no-standard-checks'], defines=['-DHAVE_LIBIDN2'], timeout=300, reach=0,
+        expect=['assertion'], functions=['errors[] (data)'], files=['src/eav.c'], assumptions=[A_TABLE], note='keyword per code: the message is about its own code'))
 add(Job('lemma_rank', 'harness/lemma_rank.c', loops=True, defines=['-DPART_MONO'], timeout=300, reach=1,
         expect=['loop_invariant_base', 'loop_invariant_step', 'loop_decreases', 'assertion'], functions=['dot-rank function (lemma, induction by loop contract)'], files=[],
         note='rank is defined by the step axiom, which is the only assumption inside the loop'))
